@@ -1,2 +1,9 @@
 """Predicates of known findings: each takes (spec, fail) and returns True when the
 failure is explained by the recorded defect. Kept as narrow as the root cause."""
+
+
+def cm_sampler(spec, fail):
+    """F07: ConstantAndMultiplicativeGaussianErrorModel.sample adds two independent noise terms
+    (variance sigma_b^2 + (sigma_r*ybar)^2) while the log-likelihood uses sd = sigma_b + sigma_r*ybar.
+    Only the constant+multiplicative error-model cases of C06 are explained by it."""
+    return spec.get('mode') == 'em' and spec.get('kind') == 'cm'
